@@ -36,7 +36,9 @@ func HarnessTLSPolicy() {
 	if static {
 		opts.TLSCertificatePath, opts.TLSPrivateKeyPath = "cert.pem", "key.pem"
 	}
-	s, err := NewService("svc", opts, TargetOptions{HealthCheckConfig: HealthCheckConfig{Path: "/up"}})
+	// the (unrelated) forward-headers target option, and forwarding headers a client may send: the decision depends on
+	// how the request arrived, never on what it claims
+	s, err := NewService("svc", opts, TargetOptions{HealthCheckConfig: HealthCheckConfig{Path: "/up"}, ForwardHeaders: vBool("forward_headers")})
 	wild := vAnd(tlsOn, vAnd(!static, vHasByte(svcHost, '*')))
 	vAssert((err == ErrorAutomaticTLSDoesNotSupportWildcards) == wild, "tls: automatic TLS is refused exactly for wildcard hosts (static certificates exempt)")
 	vAssert(err == nil || err == ErrorAutomaticTLSDoesNotSupportWildcards, "tls: no other construction error")
@@ -61,6 +63,13 @@ func HarnessTLSPolicy() {
 	req := &http.Request{Method: "POST", URL: u, Host: host, Header: http.Header{}}
 	if overTLS {
 		req.TLS = &tls.ConnectionState{}
+	}
+	switch vChoose("claimed_proto", 3) {
+	case 1:
+		req.Header.Set("X-Forwarded-Proto", "https")
+	case 2:
+		req.Header.Set("X-Forwarded-Proto", "http")
+		req.Header.Set("X-Forwarded-Ssl", "off")
 	}
 	w := vNewRecorder()
 	vAssume(s.pauseController.GetState() != PauseStatePaused || s.pauseController.FailAfter >= 0 && s.pauseController.FailAfter < 1<<40)
@@ -132,7 +141,7 @@ func HarnessTLSSync() {
 		svcs = append(svcs, s)
 		m.services[s.name] = s
 	}
-	m.updateRequestServiceMap()
+	vCallMethod(m, "updateRequestServiceMap")
 	// then one more command through the public mutators: redeploy with the same bindings but new TLS flags,
 	// deploy of a further service, or removal
 	switch vChoose("op", 4) {
